@@ -53,11 +53,29 @@ func refSeries(function string, increasing bool, coef, mn, mx float64, mg *margi
 // refLevels returns the aspiration levels (criterion id -> threshold) the
 // method works through, for the state `s` the method receives.
 func refLevels(mp M, increasing bool, s *Snap, mg *marginT) (levels []map[string]float64, generated bool, endless bool) {
+	return refLevelsR(mp, increasing, s, mg, nil)
+}
+
+// refLevelsR additionally takes the response: for an explicit threshold list the thresholds of criteria added
+// by biases are seeded random numbers that are only visible in the bias reports (one value per level).
+func refLevelsR(mp M, increasing bool, s *Snap, mg *marginT, r *Resp) (levels []map[string]float64, generated bool, endless bool) {
 	fn := str(mp["function"])
 	params := asM(mp["params"])
 	if fn == "thresholds" {
 		for _, t := range asL(params["thresholds"]) {
 			levels = append(levels, numMap(t))
+		}
+		if r != nil {
+			for _, a := range addedCriteria(r) {
+				ths := asL(asM(a.Params["params"])["thresholds"])
+				for i := range levels {
+					if i < len(ths) {
+						if x, ok := numMap(ths[i])[a.Id]; ok {
+							levels[i][a.Id] = x
+						}
+					}
+				}
+			}
 		}
 		return levels, false, false
 	}
